@@ -20,7 +20,7 @@ vars == <<cs, phase, res>>
 
 
 \* ------------------------------------------------------------ pools
-NR1 == {"float64", "int", "int8", "uint8", "int64", "uint64", "float32", "jsonNumber", "namedInt"}
+NR1 == {"float64", "int", "int8", "uint8", "int64", "uint64", "float32", "jsonNumber", "jsonNumberE", "namedInt"}
 NR2 == {"float64", "int", "jsonNumber"}
 AR == {"any", "typed", "array"}
 OR == {"any", "typed", "namedkey"}
@@ -45,7 +45,7 @@ UAElems == {Num(R_1), Num(R_m1), Str("1"), Null, Bool(TRUE), Arr(<<Num(R_m1)>>),
                \cup (IF K >= 2 THEN {Str("a"), Num(R_2), Obj([a |-> Num(R_1), b |-> Num(R_2)])} ELSE {})
 UAPlain(z) == {Arr(e) : e \in UNION {[1..n -> UAElems] : n \in 0..(IF K >= 2 THEN 3 ELSE 2)}}
               \cup {Arr(<<Num(R_1), Num(R_2), Num(R_0), x, Num(R_1h)>>) : x \in {Num(R_1), Num(R_4), Num(R_0)}}
-UAReps(v) == RepsOf(v, IF K >= 2 THEN {"float64", "int", "jsonNumber"} ELSE {"float64", "int8", "jsonNumber"}, {"any", "typed", "array"}, {"any", "typed"})
+UAReps(v) == RepsOf(v, IF K >= 2 THEN {"float64", "int", "jsonNumber"} ELSE {"float64", "jsonNumberE", "jsonNumber"}, {"any", "typed", "array"}, {"any", "typed"})
 UASchemas == <<[uniqueItems |-> TRUE],
                [enum |-> <<Num(R_1), Str("a"), Arr(<<Num(R_m1)>>), Obj([a |-> Num(R_1)]), Arr(<<Num(R_1), Num(R_m1)>>), Null>>],
                [const |-> Arr(<<Num(R_m1)>>)], [const |-> Arr(<<Num(R_1), Num(R_1)>>)],
@@ -60,13 +60,14 @@ RVPlain ==
    Obj([a |-> Num(R_1)]), Obj([a |-> Num(R_3), b |-> Num(R_1)]), Obj([a |-> Arr(<<Num(R_1)>>)]),
    Arr(<<Obj([a |-> Num(R_1)])>>), Obj([ab |-> Str("a")]), EmptyObj, EmptyArr}
 RVReps(z) ==
-  UNION {WithWraps(RepsOf(v, IF K >= 2 THEN NR1 ELSE {"float64", "int", "uint8", "float32", "jsonNumber", "namedInt"}, AR, OR),
+  UNION {WithWraps(RepsOf(v, IF K >= 2 THEN NR1 ELSE {"float64", "int", "uint8", "jsonNumberE", "jsonNumber", "namedInt"}, AR, OR),
                    IF v.t \in {"arr", "obj"} THEN {<<>>, <<"ptr">>} ELSE Wraps) : v \in RVPlain}
 IntS == [type |-> "integer"]
 RVSchemas ==
   <<[type |-> "integer"], [type |-> "number"], [type |-> "string"], [type |-> "array"], [type |-> "object"], [type |-> "null"],
     [types |-> <<"string", "null">>], [enum |-> <<Num(R_1), Str("1"), Arr(<<Num(R_1), Num(R_3)>>), Obj([a |-> Num(R_1)])>>],
-    [const |-> Num(R_3)], [const |-> Obj([a |-> Arr(<<Num(R_1)>>)])],
+    [const |-> Num(R_3)], [const |-> Obj([a |-> Arr(<<Num(R_1)>>)])], [const |-> Str("1")], [enum |-> <<Str("1"), Str("a")>>],
+    [items |-> [not |-> [const |-> Str("1")]]], [uniqueItems |-> TRUE, items |-> [type |-> "number"]],
     [minimum |-> R_2], [maximum |-> R_2], [exclusiveMinimum |-> R_1], [exclusiveMaximum |-> R_3], [multipleOf |-> R_1h],
     [minLength |-> 2], [maxLength |-> 0], [pattern |-> "^a"],
     [items |-> IntS], [prefixItems |-> <<[const |-> Num(R_1)]>>, items |-> [minimum |-> R_3]], [contains |-> [const |-> Num(R_3)]],
